@@ -83,7 +83,7 @@ Lemma gsum_0 (g : nat -> R) : gsum (N := NumR) O g = 0.
 Proof. reflexivity. Qed.
 
 (** one step of a sliding sum: the history gains [x], the window loses [h n] *)
-Lemma gsum_hcons n x (h : nat -> R) (g : R -> R) :
+Lemma gsum_hcons {A} n (x : A) (h : nat -> A) (g : A -> R) :
   gsum (N := NumR) (S n) (fun i => g (hcons x h i)) =
   g x + gsum (N := NumR) (S n) (fun i => g (h i)) - g (h n).
 Proof. rewrite gsum_S_shift, gsum_S. simpl. lra. Qed.
